@@ -100,6 +100,8 @@ DRIVER_HEAD = r'''
 typedef @M@Instance Inst;
 #define NINST 8
 static Inst insts[NINST];
+static Inst* instp[NINST];   /* the live instance behind number k: &insts[k] after I, or the object returned by newChild after N */
+static void* creatingChildOf; static void* childSeen; static int childSeenMismatch;
 static int cur = -1;
 static FILE* OUT;
 static jmp_buf jb;
@@ -128,7 +130,13 @@ static void hostLog(int id, void* inst, const U64* a, int n) {
   char b[1024]; size_t o = 0; int i;
   o += (size_t)sprintf(b + o, "h%d(", id);
   for (i = 0; i < n; i++) o += (size_t)sprintf(b + o, "%s0x%llx", i ? "," : "", a[i]);
-  sprintf(b + o, ")%s", (cur >= 0 && inst == (void*)&insts[cur]) ? "ok" : "BADINST");
+  if (creatingChildOf) { /* host calls made while newChild runs (start function): the instance must be the new child - one and the same
+                            new object, never the parent or any other live instance; its identity is confirmed when newChild returns */
+    int k_, known = 0; for (k_ = 0; k_ < NINST; k_++) if (instp[k_] && inst == (void*)instp[k_]) known = 1;
+    if (inst == creatingChildOf || known || (childSeen && childSeen != inst)) childSeenMismatch = 1;
+    if (!childSeen) childSeen = inst;
+    sprintf(b + o, ")%s", (inst == creatingChildOf || known) ? "BADINST" : "ok"); }
+  else sprintf(b + o, ")%s", (cur >= 0 && inst == (void*)instp[cur]) ? "ok" : "BADINST");
   traceAdd(b);
 }
 static U32 f2i(F32 f) { U32 u; memcpy(&u, &f, 4); return u; }
@@ -152,7 +160,7 @@ static void doCall(int step, int inst, int fk, const U64* a, int n) {
   fprintf(OUT, " -> "); fflush(OUT);
   cur = inst;
   if (setjmp(jb) == 0) {
-    thunks[fk].fn(&insts[inst], a, &r);
+    thunks[fk].fn(instp[inst], a, &r);
     if (thunks[fk].ret[0] == 'v') fprintf(OUT, "void\n"); else fprintf(OUT, "%s:0x%llx\n", thunks[fk].ret, r);
   } else {
     fprintf(OUT, "trap:%s%s\n", trapName(trapCode), (trapCount - before) == 1 ? "" : ":MULTI");
@@ -171,8 +179,18 @@ int main(int argc, char** argv) {
     if (tok[0][0] == 'S') { int s = atoi(tok[1]), i; if (s < 0 || s >= MAXSETS || atoi(tok[2]) > 256) { fprintf(stderr, "driver: operand set out of range\n"); return 2; } setN[s] = atoi(tok[2]); for (i = 0; i < setN[s]; i++) sets[s][i] = strtoull(tok[3 + i], NULL, 0); continue; }
     step++;
     switch (tok[0][0]) {
-    case 'F': { int k = atoi(tok[1]); @M@FreeInstance(&insts[k]); fprintf(OUT, "%d F %d ok\n", step, k); break; }
+    case 'F': { int k = atoi(tok[1]); @M@FreeInstance(instp[k]); instp[k] = NULL; fprintf(OUT, "%d F %d ok\n", step, k); break; }
+    case 'N': { /* N <parent> <k>: instance k becomes a child of <parent> (common.newChild); for a module without shared memories a child
+                   is observably a fresh instance built with the same resolver */
+      int pa = atoi(tok[1]), k = atoi(tok[2]); Inst* c;
+      cur = k; creatingChildOf = (void*)instp[pa]; childSeen = NULL; childSeenMismatch = 0;
+      if (setjmp(jb) == 0) { c = (Inst*)instp[pa]->common.newChild((wasmModuleInstance*)instp[pa]);
+        if (c == NULL || (childSeen && childSeen != (void*)c) || childSeenMismatch || (void*)c == creatingChildOf) fprintf(OUT, "%d I %d fail:child-identity\n", step, k);
+        else { instp[k] = c; fprintf(OUT, "%d I %d ok\n", step, k); } }
+      else fprintf(OUT, "%d I %d fail:%s\n", step, k, trapName(trapCode));
+      creatingChildOf = NULL; break; }
     case 'I': { int k = atoi(tok[1]); cur = k; memset(&insts[k], 0, sizeof insts[k]);
+      instp[k] = &insts[k];
       if (setjmp(jb) == 0) { @M@Instantiate(&insts[k], resolve); fprintf(OUT, "%d I %d ok\n", step, k); }
       else fprintf(OUT, "%d I %d fail:%s\n", step, k, trapName(trapCode));
       break; }
@@ -315,7 +333,7 @@ def gen_driver(plan, module_name, header, multi=False, shared_ok=True, wasi=Fals
         if r['kind'] == 'import':
             o.append('  case %d: return impMem[%d];' % (i, r['index']))
         else:
-            o.append('  case %d: return %s_%s(&insts[inst]);' % (i, M, escape(r['name'])))
+            o.append('  case %d: return %s_%s(instp[inst]);' % (i, M, escape(r['name'])))
     o.append('  default: abort(); }\n}')
     o.append('static wasmTable* getTbl(int inst, int ref) { (void)inst; switch (ref) {')
     for i, r in enumerate(plan.tblrefs):
@@ -323,7 +341,7 @@ def gen_driver(plan, module_name, header, multi=False, shared_ok=True, wasi=Fals
             o.append('  case %d: return &impTbl[%d];' % (i, r['index']))
         else:
             # tables are not exported by w2c2; a defined table is read through the instance field t<index>
-            o.append('  case %d: return &insts[inst].t%d;' % (i, r['index']))
+            o.append('  case %d: return &instp[inst]->t%d;' % (i, r['index']))
     o.append('  default: abort(); }\n}')
     # thunks
     for k, e in enumerate(plan.exports):
